@@ -178,7 +178,7 @@ def strategy():
 
 def plan(tier):
     q = tier == 'quick'
-    return [{'kind': 'history', 'examples': 120 if q else 2500} for _ in range(8 if q else 16)]
+    return [{'kind': 'history', 'examples': 90 if q else 2500} for _ in range(8 if q else 16)]
 
 
 def run_shard(shard, seed, tier, rec):
